@@ -57,6 +57,14 @@ func engineProgram(db []J) (string, map[string]bool) {
 			cl := c.(map[string]J)
 			body := cl["body"]
 			if b, ok := body.([]J); ok && b[0] == "a" && b[1] == "true" {
+				// option pieces=1: every other fact with a list argument builds that list in its body, cell by cell through
+				// auxiliary variables - the same clause for the specification, another representation at run time
+				if opt("pieces") == "1" && jt.Int(cl["id"])%2 == 1 {
+					if h, goals, ok := inPieces(cl["head"]); ok {
+						fmt.Fprintf(&sb, "%s :- %s.\n", h, strings.Join(goals, ", "))
+						continue
+					}
+				}
 				fmt.Fprintf(&sb, "%s.\n", jt.Render(cl["head"]))
 			} else {
 				fmt.Fprintf(&sb, "%s :- %s.\n", jt.Render(cl["head"]), jt.Render(body))
@@ -64,6 +72,43 @@ func engineProgram(db []J) (string, map[string]bool) {
 		}
 	}
 	return sb.String(), user
+}
+
+// inPieces replaces the first argument of the head that is a list of two or more cells by a variable and returns the goals
+// that build the list one cell at a time: Y = [p|T1], T1 = [q|T2], T2 = [].
+func inPieces(head J) (string, []string, bool) {
+	h, ok := head.([]J)
+	if !ok || h[0] != "c" {
+		return "", nil, false
+	}
+	args := append([]J{}, h[2].([]J)...)
+	for i, a := range args {
+		at, ok := a.([]J)
+		if !ok || at[0] != "c" || at[1] != "." || len(at[2].([]J)) != 2 {
+			continue
+		}
+		var goals []string
+		cur, name, k := J(at), "Pc0", 0
+		for {
+			ct, ok := cur.([]J)
+			if !ok || ct[0] != "c" || ct[1] != "." || len(ct[2].([]J)) != 2 {
+				break
+			}
+			k++
+			next := fmt.Sprintf("Pc%d", k)
+			goals = append(goals, fmt.Sprintf("%s = [%s|%s]", name, jt.Render(ct[2].([]J)[0]), next))
+			cur, name = ct[2].([]J)[1], next
+		}
+		if k < 2 {
+			continue
+		}
+		goals = append(goals, fmt.Sprintf("%s = %s", name, jt.Render(cur)))
+		args[i] = []J{"a", "Pc0"}
+		// (rendered as an atom: the name is a variable name, jt.Render writes atoms that look like variables quoted)
+		text := jt.Render([]J{"c", h[1], args})
+		return strings.Replace(text, "'Pc0'", "Pc0", 1), goals, true
+	}
+	return "", nil, false
 }
 
 type engineRun struct {
